@@ -12,19 +12,28 @@ exported by cnfgen/__init__.py is executed.  At every transition T(F):
   * the result is a distinct formula object;
   * the header of the result = the entries of F in order (the description may
     only be extended, never replaced) + exactly one new entry whose key is
-    'transformation <k+1>' (k = numbered entries already present);
-  * aliasing probes: a second result is mutated through the public API
-    (add_clause, header, new variables), through its internal lists and
-    through every mutable container reachable from both sides -> the input
-    and the arguments must not move; a deep copy of the input is mutated in
-    the same way after being transformed -> its result must not move.
+    'transformation <k+1>' (k = numbered entries already present), also in
+    the comment lines of the DIMACS output, and after n steps the header is
+    the start header + n consecutively numbered entries;
+  * aliasing probes, all on a private deep copy Fa of F so that the explored
+    state is never touched: (a) a result of T(Fa) is mutated through the
+    public API (add_clause, header entries, new variables) and through its
+    clause lists -> Fa and the arguments must not move; then every mutable
+    container reachable from both sides is mutated -> same; (b) Fa is mutated
+    in the same way -> another result of T(Fa) must not move.  A bare
+    reference from one formula to the other is not counted as state.
+  * a state involved in a violation is never built upon (one defect, one
+    key), and an input changed by the real call is rebuilt from its history.
 
 Part B (bounded exhaustive).  Every family generator that takes a graph over
 all graphs of a small scope (cnfgen and networkx objects), every constraint
 builder of CNF and OPB over all literal lists of a small scope, Tseitin
 charges, bipartite_shift patterns, planted assignments, Shuffle's explicit
 lists and VariableCompression's graph: the argument is bit-for-bit the same
-after the call, also when the call raises.
+after the call, also when the call raises, and the formula holds copies.
+
+Part T.  Two different exported transformations applied with the same
+arguments must not record the same provenance text.
 """
 import re
 import copy
@@ -43,7 +52,7 @@ EXHAUSTIVE = True
 RULE = ('A: from each of 31 start formulas, every chain of <=2 (quick; <=3 from two tiny starts) / <=3 '
         '(thorough) transformations of the core alphabet (17 entries: every transformation exported by '
         'cnfgen/__init__.py at a fixed rank, Shuffle with explicit lists and with "fixed", VariableCompression '
-        'xor/maj on a fixed graph) and every chain of <=1 (quick) / <=2 (thorough) steps that uses the '
+        'xor/maj on a fixed graph) and every chain of <=1 (quick) / <=2 (thorough) steps with exactly one step from the '
         'extended alphabet (55 more entries: other ranks, boundary constants, tuples, ranges, keyword '
         'arguments, seeded random shuffle, networkx / complete graphs, refused arguments); a transition is '
         'executed when its a-priori size bound sum(fanout^|C| * width * |C|) is <= 3000 literals; states are '
@@ -64,6 +73,9 @@ ASSUMPTIONS = [
     'the complete state of an object is what is reachable through __dict__, items and elements '
     '(ref/c19_state.deep_state); for networkx graphs the documented data structures (graph, _node, _adj, '
     '_pred, _succ), not the memoised views',
+    'a list / dict / set reachable from both the result and the input (or an argument) whose mutation is '
+    'visible on the other side counts as aliasing (key ...:aliasing:shared-container:...), in addition to '
+    'the mutations possible through the public API (add_clause, header, new variables) and _clauses',
     'the description entry may be extended by a transformation (Shuffle appends " (reshuffled)") but must '
     'keep the original text as its beginning; counted as A:description_extended',
     'transformations are documented for cnfgen.CNF inputs only; OPB inputs are not explored in part A',
@@ -79,7 +91,7 @@ def VACUITY(tier):
     return {'states': 60000 if t else 8000, 'transitions': 80000 if t else 9000,
             'executions': 250000 if t else 40000,
             'A:result_ok': 60000 if t else 8000, 'A:call_raised': 300,
-            'A:chains_len2': 50000 if t else 4000, 'A:chains_len3': 20000 if t else 2000,
+            'A:chains_len2': 30000 if t else 4000, 'A:chains_len3': 20000 if t else 2000,
             'A:description_extended': 1000, 'A:mutable_arguments_checked': 3000,
             'A:start_states': 31, 'T:distinct_texts': 10,
             'G:calls_ok': 5000, 'G:calls_raised': 500, 'G:graphs_with_edges': 4000,
@@ -425,19 +437,25 @@ def mutable_args(argpack):
 
 
 def poke_formula(F):
-    """Mutate a formula in every way a user (or later code) can."""
+    """Mutate a formula in every way a user (or later code) can.  Each step
+    is attempted on its own: on an already wrecked object some may fail."""
     n = F.number_of_variables()
-    F.add_clause([1] if n < 2 else [1, -2])
-    F.header['c19 probe'] = 'probe'
-    for k in list(F.header):
-        F.header[k] = str(F.header[k]) + ' (poked)'
-    F.header.pop('url', None)
-    for c in F._clauses:
-        c.append(1)
-    F._clauses.append([1])
-    F._clauses.reverse()
-    F.update_variable_number(n + 3)
-    F.new_variable('c19probe')
+    steps = [
+        lambda: F.add_clause([1] if n < 2 else [1, -2]),
+        lambda: F.header.__setitem__('c19 probe', 'probe'),
+        lambda: [F.header.__setitem__(k, str(F.header[k]) + ' (poked)') for k in list(F.header)],
+        lambda: F.header.pop('url', None),
+        lambda: [c.append(1) for c in F._clauses],
+        lambda: F._clauses.append([1]),
+        lambda: F._clauses.reverse(),
+        lambda: F.update_variable_number(n + 3),
+        lambda: F.new_variable('c19probe'),
+    ]
+    for step in steps:
+        try:
+            step()
+        except Exception:
+            pass
 
 
 # --------------------------------------------------------- header model ----
@@ -554,7 +572,7 @@ def check_transition(F, sid, chain, R=None, h0=None):
     # ---- executions 2, 3 on a private deep copy of the input: the real state F
     # is never touched by the probes, whatever is aliased ----------------------
     Fa = copy.deepcopy(F)
-    snap_a = st.formula_snapshot(Fa)
+    snap_a = st.formula_snapshot(Fa, stop=())
     pack2, pack3 = make_args(tname, Fa), make_args(tname, Fa)
     G2, exc2 = invoke(tname, Fa, pack2)
     G3, exc3 = invoke(tname, Fa, pack3)
@@ -570,30 +588,42 @@ def check_transition(F, sid, chain, R=None, h0=None):
     for label, a in mutable_args(pack2):
         shared += [(label, p, q, c) for (p, q, c) in st.shared_mutables(a, G2)]
     stat('A:shared_mutable_containers', len(shared))
-    poke_formula(G2)
-    for (_, _, _, c) in shared:
-        st.poke(c)
-    after_a = st.formula_snapshot(Fa)
-    d = st.diff_formula(snap_a, after_a)
-    if d:
-        bad('aliasing:result-to-input:' + d, 'mutating the RESULT changed the input formula: %s%s'
-            % (_where(snap_a, after_a, d),
-               '; shared containers: %r' % [(s_[0], s_[1], s_[2]) for s_ in shared[:3]] if shared else ''))
-    for (la, sa), (lb, sb) in zip(args2_before, arg_snapshots(pack2)):
-        if sa != sb:
-            bad('aliasing:result-to-argument:' + la, 'mutating the RESULT changed argument %s: %s'
-                % (la, st.first_difference(sa, sb)))
+    def watch_a(sym_input, sym_arg, how):
+        after_a = st.formula_snapshot(Fa, stop=(id(G2),))
+        d = st.diff_formula(snap_a, after_a)
+        if d:
+            bad('%s:%s' % (sym_input, d), '%s changed the input formula: %s%s'
+                % (how, _where(snap_a, after_a, d),
+                   '; shared containers: %r' % [(s_[0], s_[1], s_[2]) for s_ in shared[:3]] if shared else ''))
+        for (la, sa), (lb, sb) in zip(args2_before, arg_snapshots(pack2)):
+            if sa != sb:
+                bad('%s:%s' % (sym_arg, la), '%s changed argument %s: %s'
+                    % (how, la, st.first_difference(sa, sb)))
+        return bool(d)
+    poke_formula(G2)                      # what a user can do with the result
+    moved = watch_a('aliasing:result-to-input', 'aliasing:result-to-argument', 'mutating the RESULT')
+    if shared and not moved:              # any container both sides can reach
+        for (_, _, _, c) in shared:
+            st.poke(c)
+        watch_a('aliasing:shared-container:input', 'aliasing:shared-container:argument',
+                'mutating a container reachable from the result')
     # (b) mutate the input -> result 3 must not move
-    snap_3 = st.formula_snapshot(G3)
+    snap_3 = st.formula_snapshot(G3, stop=(id(Fa),))   # a bare reference to the input is not state
     shared_c = st.shared_mutables(Fa, G3)
     poke_formula(Fa)
-    for (_, _, c) in shared_c:
-        st.poke(c)
-    after_3 = st.formula_snapshot(G3)
+    after_3 = st.formula_snapshot(G3, stop=(id(Fa),))
     d = st.diff_formula(snap_3, after_3)
     if d:
         bad('aliasing:input-to-result:' + d, 'mutating the INPUT after the call changed the result: %s'
             % _where(snap_3, after_3, d))
+    elif shared_c:
+        for (_, _, c) in shared_c:
+            st.poke(c)
+        after_3 = st.formula_snapshot(G3, stop=(id(Fa),))
+        d = st.diff_formula(snap_3, after_3)
+        if d:
+            bad('aliasing:shared-container:result:' + d, 'mutating a container reachable from the input '
+                'changed the result: %s' % _where(snap_3, after_3, d))
     return G, out
 
 
@@ -658,6 +688,8 @@ def run_A(args, R):
             R.stats['states'] += 1
             n = len(chain)
             for t in core + ext:
+                if used_ext and t in extset:        # at most one extended step per chain
+                    continue
                 nu = used_ext or (t in extset)
                 if n + 1 <= (dext if nu else dcore):
                     if not explore(G, chain + [t], nu):
